@@ -163,3 +163,26 @@ rewrite Ey; apply: (kalman_quadratic_exact sq lt regular).
 by rewrite kalman_S_revmx revmx_mul SX Ey.
 Qed.
 End KalmanRev.
+
+(* ---- innovation variances are positive when the covariance is positive definite (positive leading principal minors), over any
+   real-closed field: the normalisation 1/2 sum log(2 pi s_k) is well defined ---- *)
+Import Order.TTheory Num.Theory.
+Section KalmanPositive.
+Variable R : rcfType.
+Variables (sq : R -> R) (lt : R -> R -> bool).
+Variables (n m : nat) (Pinf : mat R) (A : seq (mat R)) (H : mat R) (dg : vec R).
+Hypothesis minors : forall k, (k <= n)%N -> 0 < \det (kalman_Sk m Pinf A H dg k).
+Let g := kalman_gains (fops sq lt) n m Pinf A H dg.
+
+Theorem kalman_s_positive k : (k < n)%N -> 0 < nth 0 (map fst g) k.
+Proof.
+have reg j : (j <= n)%N -> \det (kalman_Sk m Pinf A H dg j) != 0 by move=> jn; rewrite gt_eqF // minors.
+move=> kn; rewrite /g (kalman_s_pivot sq lt reg) //.
+elim/ltn_ind: k kn => k IH kn.
+set PM := mx_of m m Pinf; set Ph := fun i : nat => (mx_of m m (tget A i))^T; set hh := fun i : nat => rv_of m (mrow H i).
+have nz j : (j.+1 < k.+1)%N -> gam (kd PM hh (fun i => nth 0 dg i)) (kp Ph hh) (kq PM hh) Ph (kp Ph hh) (kq PM hh) Ph j != 0.
+  by rewrite ltnS => jk; rewrite gt_eqF // IH // (ltn_trans jk).
+have := minors kn; rewrite /kalman_Sk /kalman_cov (det_LDU nz) big_ord_recr /= pmulr_rgt0 //.
+by apply: prodr_gt0 => i _; apply: IH => //; exact: ltn_trans kn.
+Qed.
+End KalmanPositive.
